@@ -312,6 +312,10 @@ func init() {
 	})
 	regSem(&semSpec{id: "C07",
 		extra: func(ctx *Ctx, i int, r *sg.Rng) *sem.Case {
+			if i < 3*nearTwinVariants {
+				return nearTwinCase(i)
+			}
+			i -= 3 * nearTwinVariants
 			if i > ctx.N(24, 96) && i <= ctx.N(24, 96)+12 {
 				return nullableDefCase(i - ctx.N(24, 96) - 1)
 			}
@@ -457,6 +461,12 @@ func init() {
 					return ecmaPatternCase(k)
 				} else if k -= 6; k < 8 {
 					return undeclaredRequiredCase(k)
+				} else if k -= 8; k < 12 {
+					return propertyCountCase(k)
+				} else if k -= 12; k < 72 {
+					c := emptyIntervalCase(k)
+					c.Args = append(c.Args, "--extra-imports")
+					return c
 				}
 				return nil
 			}
